@@ -378,6 +378,41 @@ def run_grid(case, ses):
     ses.stats.nontrivial.add('grid-scale2')
     if len(ses.stats.samples) < 6:
         ses.stats.samples.append(dict(grid=pts, worst_relative_error=worst))
+    # mixed-integer exponential-cone models (soc_solve is the only way the open interfaces solve them): the returned vector
+    # satisfies the approximated program INCLUDING variable types and binary domains, and the value is within 1e-3 of the
+    # exact optimum (enumeration of the integer part, closed form for the rest)
+    for (cb, ck, kmax, r0) in [(1.5, 0.25, 6, 2.0), (-0.75, 0.5, 4, 1.0), (2.0, -0.125, 5, 3.0)]:
+        with quiet():
+            m = ro.Model()
+            x = m.dvar()
+            b = m.dvar(vtype='B')
+            k = m.dvar(vtype='I')
+            m.min(rso.exp(x) + cb * b + ck * k)
+            m.st(x >= r0 - k - 2 * b, k >= 0, k <= kmax, x <= 4, x >= -4)
+            try:
+                m.soc_solve(eco_solver, display=False)
+                val = m.get()
+                sol = np.array(m.solution.x, dtype=float)
+                g = m.do_math().to_socp()
+            except Exception as e:
+                val, sol, g = None, None, None
+        ses.stats.obligations += 1
+        ses.stats.kinds['grid-mixed-integer'] = ses.stats.kinds.get('grid-mixed-integer', 0) + 1
+        exact = min(math.exp(min(4.0, max(-4.0, r0 - kk - 2 * bb))) + cb * bb + ck * kk
+                    for bb in (0, 1) for kk in range(kmax + 1) if r0 - kk - 2 * bb <= 4)
+        data = dict(k='mip', cb=cb, ck=ck, kmax=kmax, r0=r0)
+        if val is None:
+            finding(ses, 'C18:mixed-integer', 'soc_solve fails on a mixed-integer exponential-cone model', data, 'rsv.props.c18:replay')
+            continue
+        bad = CProg(g).check_point(sol, tol=Fraction(1, 10 ** 5)) if len(sol) == g.linear.shape[1] else [('length', len(sol))]
+        rel = abs(val - exact) / (1 + abs(exact))
+        if bad or rel > 1e-3:
+            finding(ses, 'C18:mixed-integer', 'soc_solve on min exp(x) %+g b %+g k: value %.6g, exact %.6g (rel. error %.3g); the returned '
+                    'vector violates the approximated program: %s (b = %s, k = %s)' % (cb, ck, val, exact, rel, bad[:2],
+                                                                                      b.get(), k.get()), data, 'rsv.props.c18:replay')
+        else:
+            ses.stats.discharged += 1
+    ses.stats.programs += 3
     # the model stays usable after soc_solve: exp-cone solve afterwards gives the exact value
     with quiet():
         m = models()['two']()
@@ -424,6 +459,30 @@ def replay(data, verbose=False):
         if verbose:
             print('point accepted by the real to_socp() program: %s ; violates stage lemma %s' % (not bad, data['lemma']))
         return not [b_ for b_ in bad if b_[0] not in ('exp',)]
+    if k == 'mip':
+        import math
+        from rsome import ro, eco_solver
+        import rsome as rso
+        cb, ck, kmax, r0 = data['cb'], data['ck'], data['kmax'], data['r0']
+        with quiet():
+            m = ro.Model()
+            x = m.dvar()
+            b = m.dvar(vtype='B')
+            kk_ = m.dvar(vtype='I')
+            m.min(rso.exp(x) + cb * b + ck * kk_)
+            m.st(x >= r0 - kk_ - 2 * b, kk_ >= 0, kk_ <= kmax, x <= 4, x >= -4)
+            try:
+                m.soc_solve(eco_solver, display=False)
+                val, bv, kv = m.get(), float(b.get()), float(kk_.get())
+            except Exception as e:
+                if verbose:
+                    print('soc_solve fails:', e)
+                return True
+        exact = min(math.exp(min(4.0, max(-4.0, r0 - q - 2 * p_))) + cb * p_ + ck * q
+                    for p_ in (0, 1) for q in range(kmax + 1) if r0 - q - 2 * p_ <= 4)
+        if verbose:
+            print('soc_solve: value %.6g (b=%g, k=%g); exact optimum by enumeration %.6g' % (val, bv, kv, exact))
+        return abs(val - exact) > 1e-3 * (1 + abs(exact)) or bv < -1e-6 or bv > 1 + 1e-6 or abs(kv - round(kv)) > 1e-6
     if verbose:
         print(data)
     return True
